@@ -218,3 +218,51 @@ impl Shapes for ShapesImpl {
         ((), (b.1.wrapping_add(1), ()))
     }
 }
+
+/// interfaces that differ only in their auto-trait supertraits: which connections may cross or be shared between
+/// threads is decided by the compiler from `unsafe impl Send/Sync for AbiConnection<T>`
+#[savefile_abi_exportable(version = 0)]
+pub trait PlainOnly {
+    fn get(&self) -> u32;
+}
+#[savefile_abi_exportable(version = 0)]
+pub trait SendOnly: Send {
+    fn get(&self) -> u32;
+}
+#[savefile_abi_exportable(version = 0)]
+pub trait SendSync: Send + Sync {
+    fn get(&self) -> u32;
+}
+
+/// compile-time questions answered at run time: an inherent method whose bound holds wins over the trait's default
+pub struct AutoProbe<T: ?Sized>(pub std::marker::PhantomData<T>);
+pub trait AutoProbeDefault {
+    fn is_sync(&self) -> bool {
+        false
+    }
+    fn is_send(&self) -> bool {
+        false
+    }
+}
+impl<T: ?Sized> AutoProbeDefault for AutoProbe<T> {}
+impl<T: ?Sized + Sync> AutoProbe<T> {
+    pub fn is_sync(&self) -> bool {
+        true
+    }
+}
+impl<T: ?Sized + Send> AutoProbe<T> {
+    pub fn is_send(&self) -> bool {
+        true
+    }
+}
+
+/// (interface, connection is Send, connection is Sync, interface object is Send, interface object is Sync)
+pub fn auto_trait_table() -> Vec<(&'static str, bool, bool, bool, bool)> {
+    use savefile_abi::AbiConnection as C;
+    use std::marker::PhantomData as P;
+    vec![
+        ("PlainOnly", AutoProbe::<C<dyn PlainOnly>>(P).is_send(), AutoProbe::<C<dyn PlainOnly>>(P).is_sync(), AutoProbe::<dyn PlainOnly>(P).is_send(), AutoProbe::<dyn PlainOnly>(P).is_sync()),
+        ("SendOnly", AutoProbe::<C<dyn SendOnly>>(P).is_send(), AutoProbe::<C<dyn SendOnly>>(P).is_sync(), AutoProbe::<dyn SendOnly>(P).is_send(), AutoProbe::<dyn SendOnly>(P).is_sync()),
+        ("SendSync", AutoProbe::<C<dyn SendSync>>(P).is_send(), AutoProbe::<C<dyn SendSync>>(P).is_sync(), AutoProbe::<dyn SendSync>(P).is_send(), AutoProbe::<dyn SendSync>(P).is_sync()),
+    ]
+}
